@@ -26,7 +26,12 @@ HOSTILE_RULES = ["FREQ=SECONDLY", "FREQ=YEARLY;INTERVAL=0", "FREQ=DAILY;INTERVAL
                  "FREQ=YEARLY;COUNT=-1", "FREQ=YEARLY;BYEASTER=0", "FREQ=WEEKLY;WKST=XX", "FREQ=YEARLY;INTERVAL=-1",
                  "FREQ=MONTHLY;INTERVAL=0", "FREQ=YEARLY;BYMONTH=3;BYDAY=-1SU;UNTIL=20200101", "FREQ=YEARLY;;",
                  "FREQ=YEARLY;BYYEARDAY=400", "FREQ=YEARLY;BYWEEKNO=60", "FREQ=YEARLY;UNTIL=20200101T000000",
-                 "RSCALE=GREGORIAN;FREQ=YEARLY;SKIP=OMIT", "FREQ=YEARLY;BYMONTH=5L", "FREQ=DAILY;BYHOUR=25"]
+                 "RSCALE=GREGORIAN;FREQ=YEARLY;SKIP=OMIT", "FREQ=YEARLY;BYMONTH=5L", "FREQ=DAILY;BYHOUR=25",
+                 # UNTIL decoded by the combined date/time/duration/period decoder: other value kinds
+                 "FREQ=DAILY;UNTIL=200803", "FREQ=DAILY;UNTIL=123456Z", "FREQ=DAILY;UNTIL=P1D",
+                 "FREQ=DAILY;UNTIL=20200101T000000Z/PT1H", "FREQ=DAILY;UNTIL=20200101T000000Z/20200102T000000",
+                 "FREQ=DAILY;UNTIL=-PT1H;COUNT=+2", "FREQ=DAILY;BYDAY=+1MO,-53SU,0TU", "FREQ=DAILY;WKST=1MO",
+                 "FREQ=DAILY;X-UNKNOWN=a\\,b;BYDAY=MO"]
 TOKENS = {
     b"FREQ=YEARLY": [b"FREQ=SECONDLY", b"FREQ=MINUTELY", b"FREQ=HOURLY", b"FREQ=DAILY;INTERVAL=0", b"FREQ=", b"FREQ=NEVER"],
     b"FREQ=MONTHLY": [b"FREQ=SECONDLY", b"FREQ=YEARLY;BYSECOND=1,2,3"],
